@@ -11,6 +11,13 @@
 (*                         region and the two replies must be equal        *)
 (*   inv {t, a} / res {t, r}   overlapping calls of goroutine t: the       *)
 (*                         effect is an internal step between the two      *)
+(*   call {.., inj}        the store refused the call's first command /    *)
+(*                         the caller's context had ended: failure reply,  *)
+(*                         no effect (also inv {.., inj})                  *)
+(*   call {.., inmut}      the value slice passed to Set was not written to*)
+(*   end {inmut, stuck}    end of a history: retained results rendered,    *)
+(*                         all inputs intact, no call stuck                *)
+(*   (a `stuck` / `crash` event has no explanation: rejected)              *)
 (* A reply is explained iff the set of compatible contract states stays    *)
 (* non-empty (TTL!Post).                                                   *)
 EXTENDS TTL, Json, IOUtils
@@ -35,8 +42,22 @@ TReset(e) ==
 
 Quiet == \A t \in DOMAIN pend : pend[t] = Idle
 
+(* optional observations: the slice handed to Set is unchanged after the call *)
+InputKept(e) == IF "inmut" \in DOMAIN e THEN e.inmut = TRUE ELSE TRUE
+Failed(e)    == "inj" \in DOMAIN e
+
+(* a call whose first command the store refused, or whose context had already ended, reports *)
+(* a failure (Clear has no result) and changes nothing                                       *)
+TFail(e) ==
+  /\ Quiet
+  /\ e.a.op \in {"set", "get", "rem", "clear"}
+  /\ e.r = IF e.a.op = "clear" THEN ROk ELSE Rp("fault", 0)
+  /\ last' = [a |-> e.a, r |-> e.r, rr |-> e.r]
+  /\ UNCHANGED <<now, cset, seen, size, dttl, nk, mem, rds, reg, pend>>
+
 TCall(e) ==
   /\ Quiet
+  /\ InputKept(e)
   /\ IF e.a.op = "tick"
      THEN /\ e.a.d >= 0 /\ e.r = ROk
           /\ now' = now + e.a.d
@@ -56,9 +77,17 @@ TCall2(e) ==
 
 TInv(e) ==
   /\ pend[e.t] = Idle
-  /\ e.a.op \in {"set", "get", "rem"}
-  /\ pend' = [pend EXCEPT ![e.t] = [st |-> "called", a |-> e.a]]
+  /\ e.a.op \in {"set", "get", "rem", "clear"}
+  /\ pend' = [pend EXCEPT ![e.t] =
+                IF Failed(e) THEN [st |-> "done", r |-> IF e.a.op = "clear" THEN ROk ELSE Rp("fault", 0)]
+                ELSE [st |-> "called", a |-> e.a]]
   /\ UNCHANGED allvars
+
+(* end of a history: retained results were rendered, no input slice was written to, nobody stuck *)
+TEnd(e) ==
+  /\ Quiet
+  /\ e.inmut = TRUE /\ e.stuck = 0
+  /\ UNCHANGED <<allvars, pend>>
 
 TRes(e) ==
   /\ pend[e.t].st = "done" /\ pend[e.t].r = e.r
@@ -69,7 +98,8 @@ Consume ==
   /\ l <= Len(TraceLog) /\ l' = l + 1
   /\ LET e == TraceLog[l] IN
        CASE e.ev = "reset" -> TReset(e)
-         [] e.ev = "call"  -> TCall(e)
+         [] e.ev = "call"  -> IF Failed(e) THEN TFail(e) ELSE TCall(e)
+         [] e.ev = "end"   -> TEnd(e)
          [] e.ev = "call2" -> TCall2(e)
          [] e.ev = "inv"   -> TInv(e)
          [] e.ev = "res"   -> TRes(e)
@@ -78,7 +108,7 @@ Consume ==
 (* linearization point of a pending call: any reply the contract can explain *)
 Lin == \E t \in DOMAIN pend :
   /\ pend[t].st = "called"
-  /\ \E r \in Replies(World, pend[t].a) :
+  /\ \E r \in (IF pend[t].a.op = "clear" THEN {ROk} ELSE Replies(World, pend[t].a)) :
        LET W == Post(World, pend[t].a, r) IN
        /\ W.cs # {}
        /\ cset' = W.cs /\ seen' = W.sn
